@@ -409,6 +409,8 @@ def evaluator(P, spec, rep):
     rep.ob("C05.type|i64", "Result<i64," in ret.replace("std::result::", ""), "expressions are evaluated on i64 (%s)" % ret)
     M = absint.Machine(P, max_depth=4, opaque={"context::Context::get_expr"})
     M.inline_loopy_from_root = True
+    # private helpers of the evaluator (the built-in functions split off, say) are read with it, loops and all
+    M.inline_loopy = {k for k in P.reachable([key]) if k.startswith("expr::") and "{closure" not in k}
     paths = M.explore(key, M.arg_unknowns(key))
     rep.count("paths of Expr::run", len(paths))
     if M.capped or M.unsupported:
